@@ -64,7 +64,7 @@ ASSUMPTIONS = ["an honest worker: every launched job ends and its result (or err
                "max_concurrent >= 1 (enforced by Submitter.__init__)"]
 RULE = ("generated workflow programs: 2-5 python-task nodes, typed (int) or untyped, each input a constant, the workflow "
         "input or an earlier node's output, 0-2 late `node.inputs.f = other.out` assignments to any node (self, earlier, "
-        "later), optionally one failing node, on cf optionally one node whose worker process dies (os._exit), worker debug or cf; distinct = distinct program JSON; non-trivial = the "
+        "later), optionally one failing node; plus wide programs: a node split over 3-6 elements and combined, with max_concurrent below / at / above the width or unlimited, on both workers; on cf optionally one node whose worker process dies (os._exit), worker debug or cf; distinct = distinct program JSON; non-trivial = the "
         "program has a late assignment or >= 2 connections")
 
 IMPORTS = ["Model.Graph", "Spec.Graph"]
@@ -76,7 +76,7 @@ resource.setrlimit(resource.RLIMIT_CPU, (spec["cpu_limit"], spec["cpu_limit"] + 
 from pydra.compose import python, workflow
 from pydra.engine.submitter import Submitter
 LOG = spec["log"]
-if spec["typed"]:
+if spec.get("typed"):
     @python.define
     def Add(a: int, b: int, tag: str, boom: bool, die: bool) -> int:
         with open(LOG, "a") as f:
@@ -106,20 +106,44 @@ def Wf(x):
         if src[0] == "input":
             return x
         return outs[src[1]].out
-    for nd in spec["nodes"]:
+    for nd in spec.get("nodes", []):
         outs[nd["name"]] = workflow.add(
             Add(a=val(nd["a"]), b=val(nd["b"]), tag=nd["name"], boom=nd.get("boom", False),
                 die=nd.get("die", False)), name=nd["name"])
-    for la in spec["late"]:
+    for la in spec.get("late", []):
         setattr(outs[la["node"]].inputs, la["field"], outs[la["src"]].out)
     return outs[spec["out"]].out
+
+@python.define
+def Inc(a: int, b: int = 1) -> int:
+    with open(LOG, "a") as f:
+        f.write("inc\n")
+    return a + b
+
+@python.define
+def Sum(xs: list[int]) -> int:
+    with open(LOG, "a") as f:
+        f.write("sum\n")
+    return sum(xs)
+
+@workflow.define
+def Wide(xs: list[int]) -> int:
+    inc = workflow.add(Inc().split(a=xs).combine("a"), name="inc")
+    total = workflow.add(Sum(xs=inc.out), name="total")
+    return total.out
 
 def main():
     d = tempfile.mkdtemp(prefix="c18_", dir=spec["tmp"])
     try:
         kw = {"n_procs": 2} if spec["worker"] == "cf" else {}
-        with Submitter(worker=spec["worker"], cache_root=d, **kw) as sub:
-            r = sub(Wf(x=1), raise_errors=True)
+        if spec.get("kind") == "wide":
+            if spec["k"] is not None:
+                kw["max_concurrent"] = spec["k"]
+            with Submitter(worker=spec["worker"], cache_root=d, **kw) as sub:
+                r = sub(Wide(xs=spec["xs"]), raise_errors=True)
+        else:
+            with Submitter(worker=spec["worker"], cache_root=d, **kw) as sub:
+                r = sub(Wf(x=1), raise_errors=True)
         res = {"outcome": "ok", "out": r.outputs.out}
     except BaseException as e:
         res = {"outcome": "error", "etype": type(e).__name__, "msg": str(e)[:400].replace("\n", " ")}
@@ -164,6 +188,51 @@ def gen_program(rng):
         # on the debug worker the body runs in the submitting interpreter itself
         rng.choice(nodes)["die"] = True
     return {"typed": rng.random() < 0.4, "worker": worker, "nodes": nodes, "late": late, "out": names[-1]}
+
+
+def gen_wide(rng, quick):
+    """A node split over n elements (all n jobs ready at once) + a consumer, with max_concurrent below, at and
+    above n (None = the default float('inf')), on both workers.  In the quick tier the six combinations are
+    deterministic apart from n, so every seed covers `k < n` on the debug and on the cf worker."""
+    out = []
+    for worker in ("debug", "cf"):
+        n = rng.choice([3, 4, 5, 6])
+        ks = [rng.choice([1, 2]), n, rng.choice([n + 1, None])]
+        if not quick:
+            ks += [k for k in range(1, n) if k not in ks]
+        for k in ks:
+            out.append({"kind": "wide", "worker": worker, "xs": list(range(1, n + 1)), "k": k})
+    return out
+
+
+EXTRA_WIDE = """
+(* case: width n of the split node, max_concurrent, synchronous loop?, observed class
+   (0 outputs, 1 stall-detector error, 2 other error, 3 hang), number of job bodies that ran *)
+Definition wcase := (nat * option nat * bool * nat * nat)%type.
+Definition wgraph (n : nat) : graph := [mkNode 0 [] n; mkNode 1 [0] 1].
+Definition model_finishes (n : nat) (k : option nat) (sync : bool) : bool :=
+  let g := wgraph n in
+  let fuel := List.length (all_jobs g) + 2 in
+  if sync
+  then let r := run_sync unit (fun _ _ _ => tt) (fun _ => false) repaired g k fuel in
+       (status_code (o_status r) =? 0) && (List.length (launches r) =? n + 1)
+  else let r := run_async unit (fun _ _ _ => tt) (fun _ => false) repaired g k [] fuel in
+       (status_code (o_status r) =? 0) && (List.length (launches r) =? n + 1).
+(* the full scheduler model says the loop finishes having run every job once; so did the implementation *)
+Definition wtie_ok (c : wcase) : bool :=
+  let '(n, k, sync, obs, bodies) := c in
+  model_finishes n k sync && (obs =? 0) && (bodies =? n + 1).
+(* a healthy workflow ends with its outputs: neither a hang nor the stall detector's error *)
+Definition wspec_ok (c : wcase) : bool := let '(n, k, sync, obs, bodies) := c in obs =? 0.
+"""
+
+
+def wide_class(res):
+    if res is None:
+        return 3
+    if res["outcome"] == "ok":
+        return 0
+    return 1 if "Something has gone wrong" in res.get("msg", "") or "Not able to get any more tasks" in res.get("msg", "") else 2
 
 
 def analyse(p):
@@ -364,10 +433,30 @@ def run(ctx):
         if kind == "KOk" and a["value"] is not None and res["out"] != a["value"]:
             value_bad.append(i)
     res = coqio.run_cases(ctx.scratch, "c18", IMPORTS, "case_t", cases, {"tie": "tie_ok", "spec": "spec_ok"}, extra=EXTRA)
-    out = Outcome(evaluations=len(programs), distinct_nontrivial=nontriv, rule=RULE,
+    # ---- second family: wide split nodes under max_concurrent (full scheduler model, Model/Sched.v)
+    wide = [c["wide"] for c in ctx.corpus() if "wide" in c] + gen_wide(rng, ctx.tier == "quick")
+    t0 = time.time()
+    wres = execute(ctx, wide)
+    t_wide = time.time() - t0
+    wcases, wmeta = [], []
+    for p, (r, dt, rc) in zip(wide, wres):
+        n = len(p["xs"])
+        cls = wide_class(r)
+        bodies = len((r or {}).get("ran", []))
+        value_ok = cls != 0 or r["out"] == sum(p["xs"]) + n
+        wcases.append(coqio.pair(coqio.nat(n), coqio.option(None if p["k"] is None else coqio.nat(p["k"])),
+                                 coqio.boolean(p["worker"] == "debug"), coqio.nat(cls), coqio.nat(bodies)))
+        wmeta.append({"program": p, "result": r, "class": ["outputs", "stall-detector error", "other error", "hang"][cls],
+                      "bodies": bodies, "seconds": round(dt, 1), "rc": rc, "value_ok": value_ok})
+        key = "wide_k_%s_n" % ("unlimited" if p["k"] is None else "below" if p["k"] < n else "at" if p["k"] == n else "above")
+        dist[key + "_" + p["worker"]] = dist.get(key + "_" + p["worker"], 0) + 1
+    wr = coqio.run_cases(ctx.scratch, "c18w", ["Base.SchedBase", "Model.Sched", "Spec.Sched"], "wcase", wcases,
+                         {"tie": "wtie_ok", "spec": "wspec_ok"}, extra=EXTRA_WIDE)
+    nontriv += sum(1 for p in wide if p["k"] is not None and p["k"] < len(p["xs"]))
+    out = Outcome(evaluations=len(programs) + len(wide), distinct_nontrivial=nontriv, rule=RULE,
                   samples=[{"program": m["program"], "ending": m["kind"], "ran": (m["result"] or {}).get("ran")} for m in meta[:3]],
-                  distribution=dist, traces_validated=len(programs),
-                  extra={"seconds_running_workflows": round(t_run, 1),
+                  distribution=dist, traces_validated=len(programs) + len(wide),
+                  extra={"seconds_running_workflows": round(t_run, 1), "seconds_running_wide_workflows": round(t_wide, 1),
                          "slowest_run_s": max([m["seconds"] for m in meta] or [0]),
                          "watchdog": "RLIMIT_CPU 60 s per interpreter + 420 s wall clock"})
     for i in sorted(set(res["spec"]) | set(value_bad)):
@@ -377,6 +466,19 @@ def run(ctx):
                                     finding=("F18b" if m["kind"] == "KHang" and any(nd.get("die") for nd in m["program"]["nodes"]) else None),
                                     note="hang" if m["kind"] == "KHang" else
                                          ("wrong output value" if i in value_bad else "ending does not fit the graph")))
+    for i in sorted(set(wr["spec"]) | {j for j, m in enumerate(wmeta) if not m["value_ok"]}):
+        m = wmeta[i]
+        out.failures.append(Failure(case={"wide": m["program"]}, observed={k: m[k] for k in ("class", "bodies", "result", "rc", "seconds")},
+                                    expected={"outputs": sum(m["program"]["xs"]) + len(m["program"]["xs"]), "bodies": len(m["program"]["xs"]) + 1},
+                                    kind="spec", note="hang" if m["class"] == "hang" else
+                                    "healthy workflow under max_concurrent did not end with its outputs"))
+    for i in wr["tie"]:
+        if i in wr["spec"]:
+            continue
+        m = wmeta[i]
+        out.failures.append(Failure(case={"wide": m["program"]}, observed={k: m[k] for k in ("class", "bodies")},
+                                    expected="Model.Sched: Finished with every job launched once", kind="tie",
+                                    note="model/implementation (full scheduler model)"))
     for i in res["tie"]:
         m = meta[i]
         try:
@@ -393,6 +495,15 @@ def run(ctx):
 
 
 def replay(ctx, payload):
+    if "wide" in payload["case"]:
+        p = payload["case"]["wide"]
+        (res, dt, rc), = execute(ctx, [p])
+        print("program :", json.dumps(p))
+        print("implementation: %s (rc=%s, %.1fs, %d bodies) %s" % (
+            ["outputs", "stall-detector error", "other error", "hang"][wide_class(res)], rc, dt,
+            len((res or {}).get("ran", [])), json.dumps(res)[:300]))
+        print("expected: outputs %d, %d bodies (Model.Sched: Finished)" % (sum(p["xs"]) + len(p["xs"]), len(p["xs"]) + 1))
+        return 0 if wide_class(res) == 0 else 1
     p = payload["case"]["program"]
     (res, dt, rc), = execute(ctx, [p])
     a = analyse(p)
